@@ -202,8 +202,12 @@ func (p *Protocol) ReadRequest(
 	var buf [2]byte
 
 	// If we fail to read two bytes, the only possible valid value is the
-	// empty struct.
-	if count, _ := r.Read(buf[0:2]); count < 2 {
+	// empty struct. A single Read may return fewer bytes than are available,
+	// so read until we have both bytes or the stream ends.
+	if count, err := io.ReadFull(r, buf[0:2]); count < 2 {
+		if err != nil && err != io.EOF && err != io.ErrUnexpectedEOF {
+			return NoEnvelopeResponder, err
+		}
 		sr := p.Reader(bytes.NewReader(buf[:count]))
 		defer sr.Close()
 		return NoEnvelopeResponder, body.Decode(sr)
